@@ -39,7 +39,7 @@ def outdir(prop, tier):
     return d
 
 
-ASAN_ENV = {"ASAN_OPTIONS": "detect_leaks=0:abort_on_error=0:exitcode=5:allocator_may_return_null=1:handle_segv=1:allow_user_segv_handler=1",
+ASAN_ENV = {"ASAN_OPTIONS": "detect_leaks=0:abort_on_error=0:exitcode=5:allocator_may_return_null=1:handle_segv=1:allow_user_segv_handler=1:max_malloc_fill_size=65536:malloc_fill_byte=165",
             "UBSAN_OPTIONS": "halt_on_error=1:exitcode=5:print_stacktrace=1:suppressions=" + os.path.join(ROOT, "harness", "ubsan.supp")}
 
 
@@ -50,6 +50,10 @@ def run_driver(exe, script, events, timeout=20, wall=3600, append=False):
     start = 0
     restarts = 0
     env = dict(os.environ, **ASAN_ENV)
+    if append:
+        # the repeated run (C07: "repeating the run later or in another process") sees a differently filled heap: output that depends
+        # on uninitialised memory differs between the passes
+        env["ASAN_OPTIONS"] = env["ASAN_OPTIONS"].replace("malloc_fill_byte=165", "malloc_fill_byte=90")
     while True:
         errf = events + ".stderr"
         with open(errf, "ab") as ef:
